@@ -37,14 +37,14 @@ CHECKS = {
         "all 2^48; unix seconds/milli/micro/nano both directions. NOT covered: floats, time.Format/Parse formats, URL, IPv6, big.*, and jx decoding of wide integers.",
    design="4 C13", technique="symbolic execution of go/ssa + SMT; wide div/mod chains via a self-checked bit-vector-to-integer translation"),
  "C18": dict(
-   text="Bounded symbolic model checking of the real json.Equal with the jx decoder underneath: pairs and triples of JSON texts built from 22 value templates whose leaves "
+   text="Bounded symbolic model checking of the real json.Equal with the jx decoder underneath: pairs and triples of JSON texts built from 28 value templates whose leaves "
         "(digits, string bytes, escape spellings, member names, whitespace bytes) are symbolic; asserts no error on well-formed texts, reflexivity, symmetry, transitivity and "
         "agreement with equality of the denoted abstract values (objects unordered); single-byte corruption for totality. Structure and integer numbers only: "
         "number spellings with '.', 'e', 'E' (ParseFloat/big.Rat) are outside and NOT decided.",
    design="4 C18", technique="symbolic execution of go/ssa + SMT, differential against abstract-value equality"),
  "C03": dict(
    text="Bounded symbolic model checking of (a) the validate.* kernels with fully symbolic parameters (validate.Int incl. multipleOf against an independently formulated reference; "
-        "count validators; String length in code points; UniqueItems) and (b) the Decode + Validate code GENERATED in this run for a matrix of 15 named schemas (integer bounds incl. "
+        "count validators; String length in code points; UniqueItems) and (b) the Decode + Validate code GENERATED in this run for a matrix of 20 named schemas (integer bounds incl. "
         "exclusive/negative, multipleOf, enums, string length, arrays with min/max/uniqueItems and item validation, objects with required/optional/nullable members, "
         "additionalProperties:false, nesting, 10- and 18-member objects for the multi-byte required mask): schema-directed JSON texts (valid instances and single-keyword mutants) with "
         "symbolic leaves are accepted exactly when a reference validator over the abstract value says valid. One defect (absent optional array with minItems) is carried as a known finding. "
@@ -69,32 +69,44 @@ CHECKS = {
         "mutation, and cleaning removes exactly the listed regular files matching oas*/openapi* and *_gen.go/*_gen_test.go. The same harness stages a real scratch directory natively, so "
         "every model replays against the real build. run()'s flag/config stages are outside.",
    design="4 C20", technique="symbolic execution of go/ssa with nondeterministic environment stubs + SMT; native replay on a real scratch directory"),
+ "C05": dict(
+   text="Bounded symbolic model checking of routers GENERATED in this run by the real generator from /repo's templates (10 curated + 10 (quick) / 120 (thorough) seeded "
+        "route sets over a small segment grammar; the route-set dimension is enumerated, not solved). For every request path '/'+0..4 (7) fully symbolic bytes, methods "
+        "GET/POST/PUT(/OPTIONS), with and without a path prefix, for every template instantiated with symbolic argument values, and for template instances written with "
+        "percent-escapes as RawPath, the real FindPath and ServeHTTP are executed and compared with a reference matcher built from the templates: method and template-instance "
+        "soundness (P1), no slash in arguments (P1'), static-beats-templated (P2), completeness for values avoiding slashes/tail characters (P3, with the 405-by-more-specific-"
+        "template clause), 404/405/Allow (P4), lookup-vs-serving agreement with and without prefix (P5). Three router defects are carried as known findings with input-region keys.",
+   design="4 C05", technique="symbolic execution of generated Go (go/ssa) + SMT, differential against a template-derived reference matcher"),
  "C02": dict(
-   text="KERNEL CLAIM ONLY: bounded symbolic model checking of the identifier synthesis in gen/names.go (pascal, pascalSpecial, pascalNonEmpty, camel, camelSpecial, cleanSpecial with "
-        "go/token.IsIdentifier, unicode case mapping and the naming rule table executed from SSA): for every ASCII name of 0..3 (5) bytes the result is an error or satisfies the Go "
-        "identifier grammar, is not a keyword and not '_'. That every accepted spec yields a compiling package is NOT decided (needs the whole generator and the Go type checker); the "
-        "generated matrices of C03/C04/C05/C09 type-check in every run as a concrete side-condition.",
-   design="4 C02", technique="symbolic execution of go/ssa + SMT over all short names (kernel)"),
+   text="KERNEL CLAIM plus a concrete side-condition. Solver-decided: bounded symbolic model checking of the identifier synthesis in gen/names.go (pascal, pascalSpecial, pascalNonEmpty, camel, "
+        "camelSpecial, cleanSpecial with go/token.IsIdentifier, unicode case mapping and the naming rule table executed from SSA): for every ASCII name of 0..3 (4) bytes the result is an error or satisfies "
+        "the Go identifier grammar, is not a keyword and not '_'. NOT solver-decided (no symbolic dimension; the whole generator and the Go type checker are out of reach): a matrix of 46 hostile/feature specs "
+        "(names, enum edge values, shared generic responses, object-shaped parameters per location/style, pattern+default responses, 10 feature configurations incl. client-only / server-only / validation / "
+        "example tests) is generated by the tree's generator in every run and every accepted package - and its generated tests - must go build; a generator panic counts as a violation. One known finding.",
+   design="4 C02", technique="symbolic execution of go/ssa + SMT over all short names (kernel); concrete generate-and-build matrix as a side-condition"),
  "C07": dict(
    text="KERNEL CLAIM ONLY: bounded symbolic model checking of jsonpointer.ResolveCtx (the cycle/depth mechanism): from every pre-state with 0..3 distinct in-progress references built "
         "through the real AddKey, one AddKey/Delete with a symbolic key refuses exactly in-progress keys and over-deep nesting, keeps the representation invariant, and Delete restores "
         "the pre-state; Key() at the root keys a local reference by (root, text). 'Referencing equals inlining' and the dereferenced-spec clause are NOT decided.",
    design="4 C07", technique="symbolic execution of go/ssa + SMT, one inductive step from reachable pre-states (kernel)"),
  "C11": dict(
-   text="KERNEL CLAIM ONLY: bounded symbolic model checking of totality (no panic) of the spec path-key handling - parser.pathID and parser.parsePath with real url.Parse, "
-        "uri.NormalizeEscapedPath and pathParser - on every byte string of 0..3 (5) bytes with and without a leading slash. Other kernels named by the property are in C12, C16, C08. "
-        "Whole-document totality, time/memory bounds and diagnostic positions are NOT decided.",
-   design="4 C11", technique="symbolic execution of go/ssa + SMT, no-panic over all short inputs (kernel)"),
+   text="Bounded symbolic model checking of totality (no panic, termination) of the parser: (a) parser.Parse executed from SSA on a valid OpenAPI 3.1 skeleton that uses every component kind, where a "
+        "symbolic selector applies one of 63 single-node faults (null / empty / dropped part) and, separately, 19 scalar fields (status key, parameter location/style/name, media-type key, schema type/format, "
+        "reference text, security type/in/scheme, server URL, version ...) are arbitrary strings of 0..2 (3) bytes or a vocabulary keyword with its last two bytes arbitrary; (b) parser.pathID and parsePath with real "
+        "url.Parse and pathParser on every byte string of 0..3 (5) bytes with and without a leading slash; (c) uri.NormalizeEscapedPath on every string of 0..6 (8) bytes. A path that exhausts the instruction budget "
+        "is replayed natively under a time limit and reported as non-termination only when the native build does not finish either. YAML/JSON decoding, the generator stages after the parser, time/memory "
+        "bounds and diagnostic positions are NOT decided.",
+   design="4 C11", technique="symbolic execution of go/ssa + SMT: no-panic/termination over symbolic fault selectors and short symbolic texts"),
  "C08": dict(
    category="translation_validation",
    cmd="python3-vt /verif/harness/C08/check_c08.py",
-   text="Translation validation with the SMT theory of regular expressions: ECMA-262 patterns are enumerated bounded-exhaustively by AST size (<= 4 quick / 5 thorough over 44 atoms incl. "
+   text="Translation validation with the SMT theory of regular expressions: ECMA-262 patterns are enumerated bounded-exhaustively by AST size (<= 4 quick / 5 thorough over 44 atoms, plus a sweep of every \\cX, \\xHH, octal, \\u boundary and identity escape alone and inside classes, incl. "
         "\\d\\w\\s and negations, dot, \\c \\x \\u \\u{} octal and identity escapes, classes incl. []/[^]/[\\b], non-BMP literals; 8 quantifiers, groups, alternation, edge anchors); the REAL "
         "ogenregex.Convert/Compile of /repo's tree is run on each; when the linear-time engine is chosen the ECMA pattern (Unicode-aware reading of its AST) and the converted RE2 text are "
-        "both turned into RegLan terms and z3 5.1 decides that the symmetric difference of the two search languages is empty for ALL subject strings (no length bound); a witness is replayed "
+        "both turned into RegLan terms - the RE2 side from Go's own regexp/syntax parse of the expression the compiled value really holds - and z3 5.1 decides that the symmetric difference of the two search languages is empty for ALL subject strings (no length bound); a witness is replayed "
         "on the real ogenregex engine and on regexp2 (ECMAScript|Unicode) and counts only when the SMT reference and regexp2 agree against ogen. Non-regular patterns (look-around, "
         "back-references) are checked for engine choice; String() is checked natively; Convert's totality on all byte strings of 0..3 (5) bytes is decided by an SSA unit.",
-   note="SMT-LIB regex semantics of z3 5.1.0; the two pattern-to-RegLan translators written in this check (validated by witness replay on the real engines); the matching engines themselves are not executed symbolically; alphabet: code points <= 0x2FFFF",
+   note="SMT-LIB regex semantics of z3 5.1.0; the ECMA-side pattern-to-RegLan translator written in this check and the mapping of Go's regexp/syntax AST to RegLan (validated by witness replay on the real engines); the matching engines themselves are not executed symbolically; alphabet: code points <= 0x2FFFF",
    design="4 C08", technique="SMT regular-expression equivalence (z3 seq/re theory) on Convert's real output + symbolic execution of Convert for totality"),
  "C01": dict(
    text="Bounded symbolic model checking of a full client->server->client exchange on code GENERATED in this run: the generated Client.<Op> is executed with a loop-back http client whose "
@@ -102,13 +114,15 @@ CHECKS = {
         "uri decoders -> conv -> defaults -> middleware hook -> handler -> response encoder -> response decoder is executed symbolically. For symbolic caller values (path/query/header/cookie "
         "parameters of every location incl. arrays and a schema default, a JSON body with optional/defaulted/array members) and symbolic handler responses (200 with header, 4XX pattern with symbolic "
         "code, default codes, no-content) it asserts: a successful call ran middleware and handler once with exactly the caller's values (defaults applied), the middleware sees what the handler "
-        "sees, the caller gets exactly the variant/status/header/body returned, and core-domain values are always delivered. One spec (three operations); the spec dimension is not explored.",
+        "sees, the caller gets exactly the variant/status/header/body returned, and core-domain values are always delivered. A second spec adds path parameters declared in another order than the template, path-item-level and overriding parameters, zero-valued defaults in query/header/cookie, a required integer header, an enum "
+        "parameter and no-content exact/pattern/default responses with headers. Two specs (four operations); the spec dimension is not explored.",
    design="4 C01", technique="symbolic execution of generated client and server Go code (go/ssa) in an in-process loop-back + SMT"),
  "C15": dict(
    text="Bounded symbolic model checking of a server GENERATED in this run (C01's spec) against hand-built *http.Request values that bypass net/http's validation: method from six choices x "
         "URL.Path of 0..4 (6) fully symbolic bytes with an independent symbolic RawPath; operation getP with symbolic RawQuery / Cookie / header texts and handler outcome; POST bodies with five "
         "content-type choices (incl. 3 symbolic bytes) and bodies that are corrupted by a symbolic window, truncated at every length, followed by symbolic trailing bytes or missing/mistyping the "
-        "required member. Asserts: no panic, exactly one response, unrouted requests 404/405, parameter-stage failure => 400 and no handler, body-stage failure => 400/415 and no handler, handler "
+        "required member; structured getP requests (required boolean text, missing required, required/optional/defaulted primitive given twice, integer path text, repeated array / unknown parameter) with symbolic value texts against an "
+        "independent recogniser. Asserts: no panic, exactly one response, unrouted requests 404/405, parameter-stage failure => 400 and no handler, body-stage failure => 400/415 and no handler, handler "
         "error => 500, and against an independent recogniser: truncated / trailing-data / invalid-member bodies never reach the handler. The 401 stage is in C09.",
    design="4 C15", technique="symbolic execution of generated server Go code (go/ssa) on symbolic hand-built requests + SMT"),
 }
